@@ -1,6 +1,7 @@
 package checks
 
 import (
+	"strings"
 	"time"
 
 	"verif/harness/mc"
@@ -74,7 +75,7 @@ func scenariosFor(p, tier string) []*mc.Scenario {
 		}
 		if is {
 			prim = append(prim, s)
-		} else if secondary[p] {
+		} else if secondary[p] && !strings.HasPrefix(s.Name, "disc") && !strings.HasPrefix(s.Name, "thr/") {
 			c := *s
 			c.Bound = map[string]int{"quick": 1, "thorough": 2}
 			if b, ok := s.Bound[tier]; ok && b < c.Bound[tier] {
